@@ -204,6 +204,9 @@ CONTROLS = [
     ('x7-skip-never-cleared', 'X7', 'syn', 'skip-bookkeeping', [(PPF,
         '            NodeEvent::Leave(x) => {\n                if skip_nodes.contains(&x) {\n                    skip = false;\n                }\n            }',
         '            NodeEvent::Leave(_) => {}', 1)]),
+    ('x3-push-key-length-in-characters', 'X3', 'syn', ':push', [(PPF, '        let range = Range::new(base, base + s.len());', '        let len = s.chars().count();\n        let range = Range::new(base, base + len);', 1)]),
+    ('g23-resetall-enters-directive-mode', 'G23', 'syn', 'directive-mode-outside-trivia', [(CD,
+        '    let (s, b) = keyword("resetall")(s)?;', '    begin_directive();\n    let b = keyword("resetall")(s);\n    end_directive();\n    let (s, b) = b?;', 1)]),
     ('s1-version-stack-not-reset', 'S1', 'mir', 'not-reset:CURRENT_VERSION', [(PARSER + 'lib.rs', '    clear_directive();\n    clear_version();\n}', '    clear_directive();\n}', 1)]),
     ('s2-grammar-function-exported', 'S2', 'mir', 'source_text', [(PARSER + 'source_text/system_verilog_source_text.rs', 'pub(crate) fn source_text(s: Span)', 'pub fn source_text(s: Span)', 1)]),
     ('s3-scope-leak-on-error-path', 'S3', 'mir', 'text_macro_usage:unbalanced', [(CD,
